@@ -628,6 +628,10 @@ func runC12(c *Ctx) {
 				cands = append(cands, rel, rel+"#/definitions/x")
 			}
 		}
+		// references that begin with dot segments and dotted names are never sampled away either
+		for _, r := range []string{"./../common/types.json", "././../x.json", "./.shared/types.json", "./..a/x.json", ".../x.json", "../.././x.json", "./a/./../b.json", "..a/x.json"} {
+			cands = append(cands, r, r+"#/definitions/x")
+		}
 		self := len(cands)
 		for i := 0; i < len(refs); i += 1 + c.Intn(c.N(40, 8)) {
 			cands = append(cands, refs[i])
